@@ -208,37 +208,9 @@ func solveAll(obls []*Obligation, outDir string, timeout time.Duration, thorough
 	// SMT text must be produced single-threaded (term tables are not thread safe)
 	files := make([]string, len(obls))
 	cases := make([][]string, len(obls))
-	for i, o := range obls {
-		f := filepath.Join(outDir, fmt.Sprintf("%04d_%s.smt2", i, safeFile(o.Name)))
-		footer := []string{"(check-sat)"}
-		files[i] = f
-		if o.scanFail {
-			os.WriteFile(f, []byte("; "+o.Note+"\n; "+o.Pos.String()+"\n"), 0644)
-			continue
-		}
-		if len(o.Splits) > 0 && o.Kind != "cover" && len(o.Splits) <= 6 {
-			for m := 0; m < 1<<len(o.Splits); m++ {
-				cf := filepath.Join(outDir, fmt.Sprintf("%04d_%s.case%d.smt2", i, safeFile(o.Name), m))
-				full, qf := o.smtCase(footer, m)
-				os.WriteFile(cf, []byte(full), 0644)
-				if qf != "" {
-					os.WriteFile(cf+".qf", []byte(qf), 0644)
-				}
-				cases[i] = append(cases[i], cf)
-			}
-			files[i] = cases[i][0]
-			continue
-		}
-		full, qf := o.smtBoth(footer)
-		os.WriteFile(f, []byte(full), 0644)
-		if qf != "" {
-			os.WriteFile(f+".qf", []byte(qf), 0644)
-		}
-		cases[i] = []string{f}
-	}
 	var wg sync.WaitGroup
 	sem := make(chan struct{}, jobs)
-	for i := range obls {
+	launch := func(i int) {
 		wg.Add(1)
 		go func(i int) {
 			defer wg.Done()
@@ -268,6 +240,37 @@ func solveAll(obls []*Obligation, outDir string, timeout time.Duration, thorough
 			}
 			res[i] = solveOne(o, files[i], timeout, thorough)
 		}(i)
+	}
+	for i, o := range obls {
+		f := filepath.Join(outDir, fmt.Sprintf("%04d_%s.smt2", i, safeFile(o.Name)))
+		footer := []string{"(check-sat)"}
+		files[i] = f
+		if o.scanFail {
+			os.WriteFile(f, []byte("; "+o.Note+"\n; "+o.Pos.String()+"\n"), 0644)
+			launch(i)
+			continue
+		}
+		if len(o.Splits) > 0 && o.Kind != "cover" && len(o.Splits) <= 6 {
+			for m := 0; m < 1<<len(o.Splits); m++ {
+				cf := filepath.Join(outDir, fmt.Sprintf("%04d_%s.case%d.smt2", i, safeFile(o.Name), m))
+				full, qf := o.smtCase(footer, m)
+				os.WriteFile(cf, []byte(full), 0644)
+				if qf != "" {
+					os.WriteFile(cf+".qf", []byte(qf), 0644)
+				}
+				cases[i] = append(cases[i], cf)
+			}
+			files[i] = cases[i][0]
+			launch(i)
+			continue
+		}
+		full, qf := o.smtBoth(footer)
+		os.WriteFile(f, []byte(full), 0644)
+		if qf != "" {
+			os.WriteFile(f+".qf", []byte(qf), 0644)
+		}
+		cases[i] = []string{f}
+		launch(i)
 	}
 	wg.Wait()
 	return res
